@@ -228,7 +228,10 @@ def rddOracle (a : List String) (obs : String) : String :=
             else if !u.complete then
               let (tp, tctl) := tailPlain p.tail
               let avail := u.payload ++ (if tctl then [] else tp)
-              let early := u.op == 1 && err == "utf8"
+              -- replies may stop short when the read ended early: invalid text detected before the cut, or a
+              -- transport that delivered its last bytes together with a failure (the frame they belong to
+              -- is then not handled)
+              let early := (u.op == 1 && err == "utf8") || (fin == "Fd" && err == "fail")
               if (early && wrBytes != replies'.take wrBytes.length) || (!early && wrBytes != replies') then
                 (if wrBytes.length > replies'.length then "bad:reply-written-for-a-cut-control-frame" else "bad:control-replies-differ")
               else if gotP != avail.take gotP.length && wantOp u.op then "bad:delivered-bytes-not-from-the-message"
